@@ -33,3 +33,18 @@ Lemma recurse0_slash_pinned_refuted :
   recurse0 6 probe slash_name [47] [47] =
     WOk (map (fun a => ([0%nat], 47 :: a)) (expand [Lit [97]; Enum 2; Lit [98; 47]])) [47;97;49;98;47].
 Proof. split; vm_compute; reflexivity. Qed.
+
+(* port_is_enabled before the commit "fix: the enabling port inside a disabled
+   enumerated sub-tree was reported with the unexpanded name ...": the address of
+   the enabling port was collapsePath(name_buffer ++ "../" ++ enable_port).  For the
+   sub-tree "arr#3/" (enabled by "arr#3/tg") skipped at "/arr1/" that is
+   "/arr#3/tg" - an address nothing dispatches; repaired: "/arr1/tg". *)
+Definition en_port : port :=
+  Port [97;114;114;35;51;47]
+       (Some ([58;101;110;97;98;108;101;100;32;98;121;0] ++ [61;97;114;114;35;51;47;116;103;0] ++ [0]))
+       (Some [Port [116;103;58;58;84;58;70] None None; Port [120] None None]).
+
+Lemma enabled_inside_enumerated_pinned_refuted :
+  sub_toggle_pinned en_port [47;97;114;114;49;47] = Some (0%nat, [47;97;114;114;35;51;47;116;103]) /\
+  sub_toggle en_port [47;97;114;114;49;47] = Some (0%nat, [47;97;114;114;49;47;116;103]).
+Proof. split; vm_compute; reflexivity. Qed.
